@@ -253,6 +253,18 @@ def main(argv=None) -> int:
             print("replay: the recorded violation does not occur on this tree")
             return 0
 
+        import shutil
+
+        shutil.rmtree(os.path.join(VERIF, "replays", prop), ignore_errors=True)
+        if hasattr(mod, "run_all"):
+            res = mod.run_all(ns.tier, ns.jobs)
+            if getattr(mod, "PROBE_RUN_ALL", False):
+                res2 = mod.run_all(ns.tier, ns.jobs)
+                if res2["digest"] != res["digest"]:
+                    print(f"HARNESS-NONDETERMINISM property={prop}: two complete explorations observed different things")
+                    return 2
+            return _finish(prop, mod, ns, [res], 1, "whole exploration executed twice; observation digests equal" if getattr(mod, "PROBE_RUN_ALL", False) else None, known, seed, t0)
+
         shard_list = list(mod.shards(ns.tier))
         order = list(range(len(shard_list)))
         if shard_list:
@@ -278,7 +290,15 @@ def main(argv=None) -> int:
             if again["digest"] != first["digest"] or again["evaluations"] != first["evaluations"]:
                 print(f"HARNESS-NONDETERMINISM property={prop} shard={order[0]}: two runs of the same shard observed different things")
                 return 2
-        merged = merge([results[i] for i in sorted(results)])
+        return _finish(prop, mod, ns, [results[i] for i in sorted(results)], len(shard_list), "first shard executed twice in separate worker processes; observation digests equal" if probe else None, known, seed, t0)
+    finally:
+        os.chdir("/")
+        sandbox.cleanup_run_top()
+
+
+def _finish(prop, mod, ns, result_list, nshards, probe, known, seed, t0) -> int:
+    if True:
+        merged = merge(result_list)
         wall = time.time() - t0
 
         # verdict lines, per key
@@ -310,8 +330,8 @@ def main(argv=None) -> int:
                 "bounds": mod.bounds(ns.tier) if hasattr(mod, "bounds") else {},
                 "outcome_classes": merged["outcomes"],
                 "counters": merged["counters"],
-                "shards": len(shard_list),
-                "determinism_probe": "first shard executed twice in separate worker processes; observation digests equal" if probe else "n/a",
+                "shards": nshards,
+                "determinism_probe": probe or "n/a",
                 "known_findings_hit": known_hit,
                 "new_violation_keys": new_keys,
                 "notes": merged["notes"],
@@ -333,6 +353,17 @@ def main(argv=None) -> int:
                 "wall_s": round(wall, 2),
                 "violations": len(new_keys),
             }
+            try:
+                import jsonschema
+
+                jsonschema.validate(json.loads(json.dumps(ev, default=str)), json.load(open("/root/.vp/EVIDENCE.schema.json")))
+            except ImportError:
+                pass
+            except FileNotFoundError:
+                pass
+            except Exception as e:  # noqa: BLE001
+                print(f"HARNESS-ERROR property={prop}: evidence does not validate: {str(e)[:300]}")
+                return 2
             os.makedirs(os.path.join(VERIF, "evidence"), exist_ok=True)
             with open(os.path.join(VERIF, "evidence", prop + ".json"), "w") as f:
                 json.dump(ev, f, indent=1, sort_keys=True, default=str)
@@ -342,6 +373,3 @@ def main(argv=None) -> int:
             f"exhaustive={merged['exhaustive']} known={len(known_hit)} new={len(new_keys)} wall={wall:.1f}s"
         )
         return rc
-    finally:
-        os.chdir("/")
-        sandbox.cleanup_run_top()
